@@ -370,3 +370,69 @@ def r4_levels(ctx):
         n += pat.check_unit_recursion(ctx, "C13.R2", ctx.method("Fiber", mname),
                                       "level-by-level conversion")
     ctx.floor("C13.R2", n, 4, "recursion steps of the converters")
+    _uncompress_shape(ctx)
+
+
+def _uncompress_shape(ctx):
+    """Fiber.uncompress walks the union of the fiber with a fiber that has
+    every coordinate of the shape, and must emit exactly one list entry per
+    coordinate: the sub-list of a present sub-fiber, the value of a present
+    leaf, a filled empty for an absent coordinate -- the latter built for the
+    next level, like the recursion itself."""
+    from ..cfg import walk_own
+    f = ctx.method("Fiber", "uncompress")
+    rets = pat.returns(f)
+    out = text(rets[0].value) if len(rets) == 1 and isinstance(rets[0].value, ast.Name) else None
+    loops = [lp for lp in f.own_nodes() if isinstance(lp, ast.For)
+             and isinstance(lp.iter, ast.BinOp) and isinstance(lp.iter.op, ast.BitOr)]
+    ctx.require(out and len(loops) == 1, "C13.R2: uncompress is no longer a "
+                "single loop over `self | <shape fiber>` filling one list")
+    lp = loops[0]
+    tg = lp.target
+    ctx.require(isinstance(tg, ast.Tuple) and len(tg.elts) == 2 and
+                isinstance(tg.elts[1], ast.Tuple) and len(tg.elts[1].elts) == 3,
+                "C13.R2: uncompress loop target is not (c, (mask, a, b))")
+    mask, pa = text(tg.elts[1].elts[0]), text(tg.elts[1].elts[1])
+    level = f.params[2] if len(f.params) > 2 else "level"
+    cases = {"fiber": 0, "leaf": 0, "absent": 0}
+    stray = []
+    AB, B = pat.A("==", mask, "'AB'"), pat.A("==", mask, "'B'")
+    isf = pat.T("Payload.contains(%s,Fiber)" % pa)
+    notf = pat.T("Payload.contains(%s,Fiber)" % pa, False)
+    for g, st, v in pat.guarded_actions(ctx, f, lp.body):
+        if not (isinstance(v, ast.Call) and text(v.func) == out + ".append" and len(v.args) == 1):
+            if isinstance(st, ast.Expr) and isinstance(v, ast.Call) and \
+                    text(v.func).startswith(out + "."):
+                stray.append(st)
+            continue
+        a = v.args[0]
+        core = {x for x in g if not (x[0] == "!=" and mask in x[1:])}
+        if core == {AB, isf}:
+            cases["fiber"] += 1
+        elif core == {AB, notf}:
+            cases["leaf"] += 1
+        elif core == {B}:
+            cases["absent"] += 1
+            fe = a if isinstance(a, ast.Call) and text(a.func).endswith("._fillempty") else None
+            lv = fe.args[1] if fe is not None and len(fe.args) > 1 else None
+            if lv is None or text(lv).replace(" ", "") != "%s+1" % level:
+                ctx.bad("C13.R2", f, st, "uncompress fills an absent coordinate "
+                        "with `%s`, not with _fillempty(shape, %s + 1): the "
+                        "filler belongs to another level, so the nested lists "
+                        "are ragged / of the wrong depth" % (text(a), level),
+                        text_="uncompress filler level")
+            else:
+                ctx.ok("C13.R2", f, st, "absent coordinates filled for the next level",
+                       text_="uncompress filler level")
+        else:
+            stray.append(st)
+    if cases == {"fiber": 1, "leaf": 1, "absent": 1} and not stray:
+        ctx.ok("C13.R2", f, lp, "one list entry per coordinate of the shape "
+               "(sub-fiber / leaf / absent)", text_="uncompress one entry per coordinate")
+    else:
+        ctx.bad("C13.R2", f, lp, "uncompress no longer appends exactly one entry "
+                "per coordinate of the shape in each of the cases present "
+                "sub-fiber / present leaf / absent (%s%s): the lists lose or "
+                "gain positions, so position i no longer holds coordinate i"
+                % (cases, ", other list updates" if stray else ""),
+                text_="uncompress one entry per coordinate")
